@@ -3,6 +3,8 @@ CONSTANTS
   Streams <- MCStreams
   MaxChunk = 9
   HEADERFULL = FALSE
+  CHECKLEN = TRUE
+  WRAP = 12
   FailKinds = {"none", "eof", "err"}
 INVARIANTS C02_PacketsInOrder C14_OnlyCompletePackets C02_NoErrorFromPartition C14_CompleteBeforeError
 PROPERTIES C14_ErrorEventually
